@@ -751,6 +751,9 @@ func Build(h *History, bo BuildOptions) (*Built, error) {
 		mfra := &mp4.MfraBox{}
 		for _, t := range h.Tracks {
 			tfra := &mp4.TfraBox{Version: h.Layout.TfraVersion, TrackID: t.ID}
+			// the three length_size_of_* fields (1..4 bytes per number) vary with the history
+			x := t.ID*2654435761 ^ uint32(len(b.Frags))*40503 ^ uint32(len(file))*97
+			tfra.LengthSizeOfTrafNum, tfra.LengthSizeOfTrunNum, tfra.LengthSizeOfSampleNum = byte(x>>3)&3, byte(x>>7)&3, byte(x>>11)&3
 			for _, s := range b.Segs {
 				for j, gi := range s.Frags {
 					if h.Layout.Mfra == 1 && j > 0 {
